@@ -1130,13 +1130,14 @@ Definition ex_hist : list event :=
    Msg CA 4 2 (MStr "x") [];                                                 (* refused: x is not in 2's interface *)
    Msg CA 5 0 (MStr "decref") [AInt 1; AInt 1];                              (* releases clid 1 *)
    Msg CA 6 1 (MStr "hi") [];                                                (* refused: stale *)
-   Msg CA 7 2 (MStr "hi") [AYourRef 9]]%string.                              (* unknown your-reference: connection dropped *)
+   Msg CA 7 2 (MStr "hi") [AYourRef 9];                                      (* unknown your-reference: that request is refused *)
+   Msg CA 8 2 (MStr "hi") [AYourRef (-3)]]%string.                           (* a NEG token in a your-reference: protocol error, dropped *)
 Definition codes (rs : list result) : list (Z * list Z) :=
   map (fun r => (match r_out r with Enter (EBroker _) => 1 | Enter (EObj o _) => 10 + o | Enter (ECallable o) => 20 + o
                                    | Reject => 4 | Aborted => 5 | Dead => 6 | Local => 7 end, r_inst r)) rs.
 Example ex_run :
   codes (snd (run ex_world init ex_hist)) =
-  [(7, []); (7, []); (7, []); (7, []); (11, [7]); (4, []); (4, []); (23, []); (1, []); (4, []); (1, []); (4, []); (5, [])] /\
+  [(7, []); (7, []); (7, []); (7, []); (11, [7]); (4, []); (4, []); (23, []); (1, []); (4, []); (1, []); (4, []); (4, []); (5, [])] /\
   c_exports (s_b (fst (run ex_world init ex_hist))) = [(-1, (3, 1))] /\
   c_alive (s_a (fst (run ex_world init ex_hist))) = false.
 Proof. vm_compute. repeat split. Qed.
